@@ -62,6 +62,12 @@ def discover_traversals(repo, res, rule="TC-DISCOVER"):
     (as a traversal or as a listed non-traversal): a new pass gets reviewed instead of ignored."""
     t, _ = tables.tree_tables()
     known = {x["fn"] for x in t["traversal"]} | {x["fn"] for x in t.get("not_a_traversal", [])}
+    from vlib import ast as A
+    for q in sorted(known):
+        f = repo.fn(q)
+        d = A.delegate(repo, f) if f is not None else None
+        if d is not None:
+            known.add(d[0].qname)  # a tabled function that became a wrapper: TC follows it into its delegate
     for q, fn in sorted(repo.fns.items()):
         for enum, minv in (("Expr", 6), ("RegexNode", 5)):
             if T.find_enum_matches(repo, fn, enum, minv):
